@@ -44,8 +44,10 @@ func (r *streamReader) Receive(stream DRPCRemote_ReceiveStream) error {
 				return err
 			}
 			target := envelope.Targets[msg.TargetIndex]
+			// The sender index names an entry of the sender table; any other
+			// value (the writer uses -1) means the message has no sender.
 			var sender *actor.PID
-			if len(envelope.Senders) > 0 {
+			if msg.SenderIndex >= 0 && int(msg.SenderIndex) < len(envelope.Senders) {
 				sender = envelope.Senders[msg.SenderIndex]
 			}
 			r.remote.engine.SendLocal(target, payload, sender)
